@@ -33,6 +33,18 @@
 (*                    a copy captured when compute_fit starts ("captured") *)
 (*                    or read before update_model ("before": one call      *)
 (*                    late) are the expected-counterexample variants       *)
+(*   long-lived     : ONE optimizer is used for several observations, one  *)
+(*   optimizer        after the other: set_observed(o) ; compile_params() ; *)
+(*                    compute_fit() hands NEW callbacks to the sampler.     *)
+(*                    Every evaluation bins the model to the bins of the    *)
+(*                    observation that is current (BinnerRule = "at_set":   *)
+(*                    set_observed rebuilds the binner -- the code);        *)
+(*                    "lazy_once" (built at the first evaluation and kept)  *)
+(*                    and "at_init" (built by the constructor only) are the *)
+(*                    expected-counterexample variants: the model is binned *)
+(*                    to the bins of an EARLIER observation (silently wrong *)
+(*                    for the same number of bins, a broadcasting error for *)
+(*                    another number).                                      *)
 (* The transcendental constant -sum(log(sigma sqrt(2 pi))) is added by the *)
 (* harness; the specification carries h = chi2/2 as an exact rational.     *)
 (* The forward model is an exact linear toy  native_k = SUM_p C[p][k] v[p] *)
@@ -62,7 +74,11 @@ CONSTANTS
   UDen,       \* unit-cube grid  u = j/UDen, j = 0..UDen
   K, Coef,    \* native points 1..K,  Coef[p][k] integer
   Bins,       \* sequence of sets of native indices: the observation's bins
-  Data, Sig,  \* per bin: observed value, error bar (> 0)
+  Data, Sig,  \* per bin: observed value, error bar (> 0)        (Bins, Data, Sig: observation 1)
+  MoreObs,    \* sequence of records [bins, data, sig]: observations 2, 3, .. the SAME optimizer may be pointed at
+              \*          later (other bin layout, other number of bins, other data and error bars); <<>> = none
+  BinnerRule, \* "at_set": set_observed rebuilds the binner (the code) | "lazy_once": built at the first evaluation,
+              \*          never rebuilt | "at_init": built by the constructor only
   ChemSet, ChemLimit,   \* InvalidChemistry  iff  SUM_{p in ChemSet} v[p] > ChemLimit
   TLow, THigh,          \* InvalidTemperature iff v[TLow] >= v[THigh]   (inverted nodes)
   Faults,     \* exception classes a fault-injecting contribution may raise on any call
@@ -76,9 +92,15 @@ VARIABLES val,     \* [1..NP -> Int]  linear values held by the model
           cube,    \* last output of the prior callback (sequence of rationals, <<>> before)
           res,     \* last loglike call  [k, h, x, inj]
           raised,  \* an exception escaped a callback
+          ob,      \* the observation the optimizer is pointed at (1..NObs)
+          bn,      \* the observation whose bins the optimizer's binner was built from (0: no binner yet)
           hist     \* observation only (hidden by VIEW in exhaustive configs)
-vars == <<val, cube, res, raised, hist>>
-view == <<val, cube, res, raised>>
+vars == <<val, cube, res, raised, ob, bn, hist>>
+view == <<val, cube, res, raised, ob, bn>>
+
+\* ------------------------------------------------------------- observations
+NObs == 1 + Len(MoreObs)
+ObsRec(o) == IF o = 1 THEN [bins |-> Bins, data |-> Data, sig |-> Sig] ELSE MoreObs[o - 1]
 
 \* ------------------------------------------------------------------ compile
 IsObs(p) == ObsRole[p] # "model"
@@ -100,18 +122,23 @@ SumFn(f, n) == IF n = 0 THEN 0 ELSE f[n] + SumFn(f, n - 1)
 Native(v, k) == SumFn([p \in 1..NP |-> IF IsObs(p) THEN 0 ELSE Coef[p][k] * v[p]], NP)     \* model parameters only
 RECURSIVE SumOver(_, _)
 SumOver(f, S) == IF S = {} THEN 0 ELSE LET e == CHOOSE e \in S : TRUE IN f[e] + SumOver(f, S \ {e})
-BinMean(v, b) == Norm(SumOver([k \in 1..K |-> Native(v, k)], Bins[b]), Cardinality(Bins[b]))
+\* bo: the observation whose bins the binner holds
+BinMean(v, bo, b) == Norm(SumOver([k \in 1..K |-> Native(v, k)], ObsRec(bo).bins[b]), Cardinality(ObsRec(bo).bins[b]))
 \* the observation's spectrum when its parameters hold the values vd: Data * scale + offset
 RECURSIVE ProdOver(_, _)
 ProdOver(f, S) == IF S = {} THEN 1 ELSE LET e == CHOOSE e \in S : TRUE IN f[e] * ProdOver(f, S \ {e})
-DataAt(vd, b) == Data[b] * ProdOver(vd, {p \in 1..NP : ObsRole[p] = "scale"})
+DataAt(vd, o, b) == ObsRec(o).data[b] * ProdOver(vd, {p \in 1..NP : ObsRole[p] = "scale"})
                  + SumOver(vd, {p \in 1..NP : ObsRole[p] = "offset"})
 \* chi2 over the bins that can be compared (skip = the NaN bins); v: values the model is evaluated at,
-\* vd: values the observation's spectrum is read at
-Chi2Skip(v, vd, skip) == RSumSeq([b \in 1..Len(Bins) |->
+\* vd: values the observation's spectrum is read at; o: the observation (data, error bars), bo: the observation
+\* whose bins the model is binned to (same number of bins; otherwise the subtraction cannot be formed)
+Chi2Mech(v, vd, skip, o, bo) == RSumSeq([b \in 1..Len(ObsRec(o).data) |->
               IF b \in skip THEN RZero
-              ELSE LET z == RDiv(RSub(Q(DataAt(vd, b)), BinMean(v, b)), Q(Sig[b])) IN RMul(z, z)])
-Chi2(v, vd) == Chi2Skip(v, vd, {})
+              ELSE LET z == RDiv(RSub(Q(DataAt(vd, o, b)), BinMean(v, bo, b)), Q(ObsRec(o).sig[b])) IN RMul(z, z)])
+\* the statement: the model binned to the bins of the observation it is compared with
+Chi2Skip(v, vd, skip, o) == Chi2Mech(v, vd, skip, o, o)
+Chi2(v, vd, o) == Chi2Skip(v, vd, {}, o)
+Conformable(o, bo) == Len(ObsRec(bo).bins) = Len(ObsRec(o).data)
 Outcome(v) == IF SumOver(v, ChemSet) > ChemLimit THEN "InvalidChemistry"
               ELSE IF v[TLow] >= v[THigh] THEN "InvalidTemperature"
               ELSE "ok"
@@ -126,31 +153,48 @@ Mk(k, h, x, inj) == [k |-> k, h |-> h, x |-> x, inj |-> inj]
 
 Init == /\ val = Val0 /\ cube = <<>> /\ raised = FALSE /\ hist = <<>>
         /\ res = Mk("none", RZero, <<>>, "none")
+        /\ ob = 1 /\ bn = IF BinnerRule = "lazy_once" THEN 0 ELSE 1
 
 UGrid == {Norm(j, UDen) : j \in 0..UDen}
 PriorCall(u) ==
     /\ cube' = [i \in 1..NF |-> PriorSample(PriorSeq[i], u[i])]
-    /\ UNCHANGED <<val, res, raised>>
+    /\ UNCHANGED <<val, res, raised, ob, bn>>
     /\ hist' = Append(hist, [op |-> "prior", u |-> u, out |-> cube'])
+
+\* set_observed(o) ; compile_params() ; compute_fit(): the long-lived optimizer is pointed at another observation and
+\* hands new callbacks to its sampler.  Nothing else changes (the model keeps the values of the last evaluation).
+SetObserved(o) ==
+    /\ o \in 1..NObs /\ o # ob
+    /\ ob' = o
+    /\ bn' = IF BinnerRule = "at_set" THEN o ELSE bn
+    /\ res' = Mk("none", RZero, <<>>, "none")
+    /\ UNCHANGED <<val, cube, raised>>
+    /\ hist' = Append(hist, [op |-> "setobs", ob |-> o])
 
 \* which values the data side of chi2 is read at
 DataSide(before, after) == IF DataRead = "after" THEN after ELSE IF DataRead = "before" THEN before ELSE Val0
 
-ResultOf(v2, vd, x, inj) ==
+\* bo: the observation whose bins the binner holds at this evaluation.  A model that raises never reaches the
+\* subtraction; a model that returns is binned to bo's bins and subtracted from ob's data: with another number of
+\* bins that is a broadcasting error, which no callback absorbs.
+ResultOf(v2, vd, x, inj, bo) ==
     LET oc == IF inj # "none" THEN inj ELSE Outcome(v2)
-        c2 == IF oc = "NaNAll" THEN RZero                       \* nansum of nothing
-              ELSE IF oc = "NaNSome" THEN Chi2Skip(v2, vd, NaNBins)
-              ELSE Chi2(v2, vd)
-        k  == ResultKind(oc, Caught, ZeroChi, AllNaN, c2)
+        returns == oc \in {"ok", "NaNAll", "NaNSome"}
+        c2 == IF ~returns \/ ~Conformable(ob, bo) THEN RZero
+              ELSE IF oc = "NaNAll" THEN RZero                  \* nansum of nothing
+              ELSE IF oc = "NaNSome" THEN Chi2Mech(v2, vd, NaNBins, ob, bo)
+              ELSE Chi2Mech(v2, vd, {}, ob, bo)
+        k  == IF returns /\ ~Conformable(ob, bo) THEN "raise" ELSE ResultKind(oc, Caught, ZeroChi, AllNaN, c2)
     IN  Mk(k, IF k \in {"num", "part"} THEN RDiv(c2, Q(2)) ELSE RZero, x, inj)
 
 LogLike(x, inj) ==
     /\ val' = Written(val, x, 1)
-    /\ res' = ResultOf(val', DataSide(val, val'), x, inj)
+    /\ bn' = IF bn = 0 THEN ob ELSE bn                          \* "lazy_once": built now if there is none
+    /\ res' = ResultOf(val', DataSide(val, val'), x, inj, bn')
     /\ raised' = (raised \/ res'.k = "raise")
-    /\ UNCHANGED cube
+    /\ UNCHANGED <<cube, ob>>
     /\ hist' = Append(hist, [op |-> "loglike", x |-> x, inj |-> inj, k |-> res'.k, h |-> res'.h,
-                             vals |-> val'])
+                             vals |-> val', ob |-> ob])
 
 Vectors(n) == IF n = 4 THEN {<<a, b, c, d>> : a \in XSet[FitSeq[1]], b \in XSet[FitSeq[2]], c \in XSet[FitSeq[3]],
                                                  d \in XSet[FitSeq[4]]}
@@ -165,7 +209,8 @@ UVectors(n) == IF n = 4 THEN {<<a, b, c, d>> : a \in UGrid, b \in UGrid, c \in U
 PriorStep == \E u \in UVectors(NF) : PriorCall(u)
 LikeStep  == \E x \in Vectors(NF) : LogLike(x, "none")
 FaultStep == \E x \in Vectors(NF), f \in (Faults \cup NaNFaults) : LogLike(x, f)
-Next == PriorStep \/ LikeStep \/ FaultStep
+SetStep   == \E o \in 1..NObs : SetObserved(o)
+Next == PriorStep \/ LikeStep \/ FaultStep \/ SetStep
 Spec == Init /\ [][Next]_vars
 
 \* ------------------------------------------------------------ the property
@@ -182,12 +227,13 @@ ValidEqualsGaussian == (Called /\ ~InvalidCall /\ ~PartialCall) =>
                           /\ res.k = "num"
                           \* model side AND data side at the values x describes: no carry-over from earlier
                           \* calls, no frozen or late copy of the observation
-                          /\ res.h = RDiv(Chi2(ExpV(res.x), ExpV(res.x)), Q(2))
+                          \* ... binned to the bins of the observation the optimizer is pointed at NOW
+                          /\ res.h = RDiv(Chi2(ExpV(res.x), ExpV(res.x), ob), Q(2))
 InvalidNeverFinite  == (Called /\ InvalidCall) => res.k # "num"
 \* some bins NaN: non-finite, or the Gaussian over the comparable bins -- never anything else
 PartialSkipsOrNaN   == (Called /\ PartialCall) =>
                           \/ res.k = "nan"
-                          \/ res.k = "part" /\ res.h = RDiv(Chi2Skip(ExpV(res.x), ExpV(res.x), NaNBins), Q(2))
+                          \/ res.k = "part" /\ res.h = RDiv(Chi2Skip(ExpV(res.x), ExpV(res.x), NaNBins, ob), Q(2))
 NeverRaises         == ~raised /\ res.k # "raise"
 WrittenIsPriorOfX   == Called => \A p \in 1..NP : FitFlag[p] => val[p] = ExpV(res.x)[p]
 OnlyFittedWritten   == \A p \in 1..NP : ~FitFlag[p] => val[p] = Val0[p]
@@ -201,6 +247,8 @@ OrderIsFitOrder     == cube # <<>> =>
 DeclarationOrder    == \A i \in 1..NF, j \in 1..NF : i < j =>
                           /\ (IsObs(FitSeq[i]) => IsObs(FitSeq[j]))
                           /\ (IsObs(FitSeq[i]) = IsObs(FitSeq[j]) => FitSeq[i] < FitSeq[j])
+\* the binner an evaluation used is the current observation's (0: nothing evaluated since construction)
+BinnerOfObservation == Called => bn = ob
 FitsInv             == Fits(res.h) /\ \A p \in 1..NP : val[p] < Big
 \* action property: a loglike call never depends on, nor disturbs, the unfitted parameters
 UnfittedFrozen == [][\A p \in 1..NP : ~FitFlag[p] => val'[p] = val[p]]_vars
